@@ -1818,6 +1818,7 @@ fn newly_release(mapper: &mut Mapper, k: KeyCode) -> (res: StepResult)
     res.repeat is Disabled,
     //@ C01 C02 C09 | effect of the call on the list of keys considered pressed
     !final(mapper).state.input_pressed_keys@.contains(k),
+    forall|x: KeyCode| #[trigger] old(mapper).state.input_pressed_keys@.contains(x) && x != k ==> final(mapper).state.input_pressed_keys@.contains(x),
   { //@ | body
   let state = &mut mapper.state;
   
@@ -2166,6 +2167,24 @@ proof fn lemma_no_mention_not_mentioned(am: Seq<Mapping>, k: KeyCode)
   if mentioned(am, k) { let j = choose|j: int| 0 <= j < am.len() && ((#[trigger] am[j]).to@.contains(k) || am[j].from@.contains(k)); assert(false); }
 }
 
+
+// a key that is considered pressed and is not absorbed stays considered pressed across a press
+spec fn ip_kept(st: State, o: State) -> bool { forall|x: KeyCode| #[trigger] o.input_pressed_keys@.contains(x) && !o.mapped_absorbed_keys@.contains(x) ==> st.input_pressed_keys@.contains(x) }
+proof fn lemma_ip_kept_same(st: State, o: State) requires st.input_pressed_keys@ == o.input_pressed_keys@ ensures ip_kept(st, o) {}
+proof fn lemma_ip_kept_eq(a: State, b: State, o: State) requires b.input_pressed_keys@ == a.input_pressed_keys@, ip_kept(a, o) ensures ip_kept(b, o) {}
+proof fn lemma_ip_kept_push(a: State, b: State, o: State, k: KeyCode) requires b.input_pressed_keys@ == a.input_pressed_keys@.push(k), ip_kept(a, o) ensures ip_kept(b, o)
+{ lemma_push_contains(a.input_pressed_keys@, k); }
+proof fn lemma_ip_kept_hit(st: State, o: State, ab1: Seq<KeyCode>, k: KeyCode)
+  requires sub(ab1, o.mapped_absorbed_keys@), forall|x: KeyCode| #[trigger] o.input_pressed_keys@.contains(x) && (!ab1.contains(x) || o.absorbing_trigger == Some(k)) ==> st.input_pressed_keys@.contains(x)
+  ensures ip_kept(st, o)
+{}
+// across release_absorbed_keys: only absorbed keys stop being considered pressed, and a was reached from o without touching the absorbed list except shrinking it
+proof fn lemma_ip_kept_rak(a: State, b: State, o: State)
+  requires ip_kept(a, o), sub(a.mapped_absorbed_keys@, o.mapped_absorbed_keys@),
+    forall|x: KeyCode| #[trigger] a.input_pressed_keys@.contains(x) && !a.mapped_absorbed_keys@.contains(x) ==> b.input_pressed_keys@.contains(x)
+  ensures ip_kept(b, o)
+{}
+
 //@ C01 C02 C03 C05 C08 C09 C14 C19 | default: fn newly_press
 fn newly_press(mapper: &mut Mapper, k: KeyCode) -> (res: StepResult)
   requires
@@ -2202,6 +2221,8 @@ fn newly_press(mapper: &mut Mapper, k: KeyCode) -> (res: StepResult)
     final(mapper).layout == old(mapper).layout,
     //@ C01 C02 C09 | effect of the call on the list of keys considered pressed
     forall|x: KeyCode| #[trigger] final(mapper).state.input_pressed_keys@.contains(x) ==> old(mapper).state.input_pressed_keys@.contains(x) || x == k,
+    //@ C03 C05 C08 | a key that is considered pressed and is not absorbed stays considered pressed
+    ip_kept(final(mapper).state, old(mapper).state),
     //@ C19 | bookkeeping equals the fold of the emitted events; no redundant press or release
     apply(held(old(mapper).state), res.events@) == Some(held(final(mapper).state)),
     //@ C01 C02 C09 | effect of the call on the list of keys considered pressed
@@ -2224,7 +2245,7 @@ fn newly_press(mapper: &mut Mapper, k: KeyCode) -> (res: StepResult)
     np_origin(final(mapper).state, old(mapper).state, group(old(mapper).layout, k)),
     j3b(old(mapper).layout, old(mapper).state) && j5(old(mapper).layout, old(mapper).state) ==> j3b(final(mapper).layout, final(mapper).state) && j5(final(mapper).layout, final(mapper).state),
   { //@ | body
-  hide(j4); hide(j6); hide(nonempty_from); hide(from_in); hide(am_sub); hide(sup); hide(np_origin); hide(c03_fire); hide(mentioned);
+  hide(j4); hide(j6); hide(nonempty_from); hide(from_in); hide(am_sub); hide(sup); hide(np_origin); hide(c03_fire); hide(mentioned); hide(ip_kept);
   let mappings = &mapper.layout.mappings;
   let mut state = &mut mapper.state;
   
@@ -2293,6 +2314,7 @@ fn newly_press(mapper: &mut Mapper, k: KeyCode) -> (res: StepResult)
       invariant
         //@ C02 C05 C08 | origin of mappings in effect / absorbed keys
         any_hit ==> np_origin(*state, st0, g),
+        any_hit ==> ip_kept(*state, st0),
         //@  | frame / auxiliary
         should_absorb ==> absorbed_keys@ == ab1,
         !should_absorb ==> (absorbed_keys@.len() == 0 && at1 == Some(k)),
@@ -2358,14 +2380,14 @@ fn newly_press(mapper: &mut Mapper, k: KeyCode) -> (res: StepResult)
           }
         }
         proof { let i = mappings@.len() - 1 - it.index@; assert(is_fired(g, st0, k, i));
-          lemma_np_origin_hit(*state, st0, ab1, g, i); }
+          lemma_np_origin_hit(*state, st0, ab1, g, i); lemma_ip_kept_hit(*state, st0, ab1, k); }
         any_hit = true;
         break;
       }
     }
   }
   let ghost hit1 = any_hit; let ghost rr1 = res.repeat; 
-  proof { if !hit1 { lemma_am_sub_refl(st0.active_mappings@); lemma_np_origin_same(*state, st0, g); } assert(np_origin(*state, st0, g)); }
+  proof { if !hit1 { lemma_am_sub_refl(st0.active_mappings@); lemma_np_origin_same(*state, st0, g); lemma_ip_kept_same(*state, st0); } assert(np_origin(*state, st0, g)); assert(ip_kept(*state, st0)); }
   proof {
     if !hit1 { assert(none_fired(g, st0, k)) by { if hmap.contains_key(k) { assert(g == hmap[k]@); } else { assert(g.len() == 0); } } }
   }
@@ -2379,7 +2401,7 @@ fn newly_press(mapper: &mut Mapper, k: KeyCode) -> (res: StepResult)
         !any_hit ==> (state.pass_through_keys@ == old(mapper).state.pass_through_keys@ && state.mapped_output_keys@ == old(mapper).state.mapped_output_keys@ && state.active_mappings@ == old(mapper).state.active_mappings@ && state.input_pressed_keys@ == old(mapper).state.input_pressed_keys@ && state.mapped_absorbed_keys@ == ab1 && state.absorbing_trigger == at1 && res.events@.len() == 0 && res.repeat is Disabled),
         //@ C01 C02 | inclusion invariant J (every held output key is justified by what is pressed)
         !any_hit ==> no_mention_upto(state.active_mappings@, it.index@ as int, k),
-        np_origin(*state, st0, g),
+        np_origin(*state, st0, g), ip_kept(*state, st0),
         //@ C03 C05 | nothing has been emitted and no mapping was touched while looking for a mapping in effect that mentions the key
         res.events@.len() == 0, state.active_mappings@ == st0.active_mappings@,
         //@ C19 | bookkeeping equals the fold of the emitted events; no redundant press or release
@@ -2433,12 +2455,12 @@ fn newly_press(mapper: &mut Mapper, k: KeyCode) -> (res: StepResult)
         let ghost e0 = res.events@; let ghost hm0 = held(*state); let ghost s_a = *state;
         res.events.append(&mut release_action_mappings(&mut state));
         proof { let c = choose|c: Seq<Event>| res.events@ == e0 + c && apply(hm0, c) == Some(held(*state)); lemma_apply_append(h0, e0, c);
-          lemma_frame_ram(s_a, *state); lemma_am_sub_refl(s_a.active_mappings@); lemma_np_origin_shrink(s_a, *state, st0, g); }
+          lemma_frame_ram(s_a, *state); lemma_am_sub_refl(s_a.active_mappings@); lemma_np_origin_shrink(s_a, *state, st0, g); lemma_ip_kept_eq(s_a, *state, st0); }
         let ghost e1 = res.events@; let ghost am_pre = state.active_mappings@; let ghost hm1 = held(*state); let ghost s_c = *state;
         res.events.append(&mut release_absorbed_keys(&mut state));
         proof { let c = choose|c: Seq<Event>| res.events@ == e1 + c && apply(hm1, c) == Some(held(*state)); lemma_apply_append(h0, e1, c);
           lemma_nonempty_sub(state.active_mappings@, am_pre);
-          lemma_nm_sub(state.active_mappings@, am_pre, k); lemma_np_origin_shrink(s_c, *state, st0, g); }
+          lemma_nm_sub(state.active_mappings@, am_pre, k); lemma_np_origin_shrink(s_c, *state, st0, g); lemma_ip_kept_rak(s_c, *state, st0); }
       }
       
       let ghost e2 = res.events@; let ghost pt2 = state.pass_through_keys@; let ghost s_b = *state;
@@ -2450,7 +2472,7 @@ fn newly_press(mapper: &mut Mapper, k: KeyCode) -> (res: StepResult)
       state.pass_through_keys.push(k);
       proof { assert(res.events@.drop_last() =~= e2); lemma_push_set(pt2, k); lemma_push_nodup(pt2, k); lemma_push_contains(pt2, k);
         assert(held(*state) =~= (pt2.to_set().union(state.mapped_output_keys@.to_set())).insert(k));
-        lemma_pass_key(s_b, *state, k); lemma_am_sub_refl(s_b.active_mappings@); lemma_np_origin_shrink(s_b, *state, st0, g); }
+        lemma_pass_key(s_b, *state, k); lemma_am_sub_refl(s_b.active_mappings@); lemma_np_origin_shrink(s_b, *state, st0, g); lemma_ip_kept_eq(s_b, *state, st0); }
     }
   }
   
@@ -2458,7 +2480,7 @@ fn newly_press(mapper: &mut Mapper, k: KeyCode) -> (res: StepResult)
   let ghost st_pre = *state;
   state.input_pressed_keys.push(k);
   proof { lemma_push_contains(ip0, k);
-    lemma_press_ip(st_pre, *state, k); lemma_am_sub_refl(st_pre.active_mappings@); lemma_np_origin_shrink(st_pre, *state, st0, g);
+    lemma_press_ip(st_pre, *state, k); lemma_am_sub_refl(st_pre.active_mappings@); lemma_np_origin_shrink(st_pre, *state, st0, g); lemma_ip_kept_push(st_pre, *state, st0, k);
     if j3b(old(mapper).layout, st0) && j5(old(mapper).layout, st0) { lemma_origin_press(old(mapper).layout, st0, *state, k); }
     assert(j3(*state)) by {
       reveal(from_in);
@@ -2647,6 +2669,9 @@ impl Mapper {
                     Event::Released(k) => !final(self).pressed_view().contains(k) && forall|x: KeyCode| #[trigger] final(self).pressed_view().contains(x) ==> old(self).pressed_view().contains(x) },
       //@ C02 C07 | release paths emit only releases
       match input { Event::Released(_) => all_released(res.events@), _ => true },
+      //@ C03 C05 C08 | a key that is considered pressed and is not absorbed stays considered pressed until its own release; a newly pressed key is considered pressed afterwards
+      forall|x: KeyCode| #[trigger] old(self).pressed_view().contains(x) && !old(self).absorbed_view().contains(x) && input != Event::Released(x) ==> final(self).pressed_view().contains(x),
+      match input { Event::Pressed(k) => final(self).pressed_view().contains(k), _ => true },
       //@ C01 C06 | at rest nothing is held
       final(self).pressed_view().len() == 0 ==> final(self).held_view() == Set::<KeyCode>::empty(),
       //@ C02 C03 C05 | the grouped copy of the layout is never modified
@@ -2663,7 +2688,7 @@ impl Mapper {
     match input {
       Pressed(k) => {
         if !state.input_pressed_keys.contains(&k) {
-          proof { let g = group(self.layout, k); lemma_scan(g, self.state, k, g.len() as int); reveal(c03_fire); }
+          proof { let g = group(self.layout, k); lemma_scan(g, self.state, k, g.len() as int); reveal(c03_fire); reveal(ip_kept); }
           newly_press(self, k)
         }
         else {
